@@ -81,3 +81,24 @@ M("c19-finish-no-final-check", "C19", ("par_util.py", "    for w in workers:\n  
 M("c19-check-ignores-exit1", "C19", ("par_util.py", "if w.exitcode is not None and w.exitcode != 0]", "if w.exitcode is not None and w.exitcode < 0]"))
 M("c19-mtan-plain-finish", "C19", ("multi_tan.py", "        finish_workers(queue, done_event, workers)", "        queue.close()\n        queue.join_thread()\n        done_event.set()\n        for w in workers:\n            w.join()"))
 M("c19-worker-swallows", "C19", ("pyramid.py", "        callback(*args)", "        try:\n            callback(*args)\n        except Exception as e:\n            print('error in worker:', e)"))
+
+# ---- C10
+M("c10-per-pid-lock", "C10", ("pyramid.py", '        with SoftFileLock(p + ".lock"):', '        import os as _os\n        with SoftFileLock(p + ".%d.lock" % _os.getpid()):'))
+M("c10-no-lock", "C10", ("pyramid.py", '        with SoftFileLock(p + ".lock"):', '        if True:'))
+M("c10-read-before-acquire", "C10", ("pyramid.py", '''        with SoftFileLock(p + ".lock"):
+            img = self.read_image(
+                pos,
+                default=default,
+                masked_mode=masked_mode,
+                format=format or self._default_format,
+            )
+''', '''        img = self.read_image(
+            pos,
+            default=default,
+            masked_mode=masked_mode,
+            format=format or self._default_format,
+        )
+        with SoftFileLock(p + ".lock"):
+'''))
+M("c10-lock-keyed-by-format", "C10", ("pyramid.py", "        p = self.tile_path(pos)\n\n        with SoftFileLock", "        p = self.tile_path(pos, format=format and ('x' + format))\n\n        with SoftFileLock"))
+M("c10-write-outside-lock", "C10", ("pyramid.py", "            yield img\n            self.write_image(pos, img, format=format or self._default_format)", "            yield img\n        self.write_image(pos, img, format=format or self._default_format)"))
